@@ -343,6 +343,51 @@ def caller_scenarios(ctx):
         assert mult == 3.0
         return np.asarray(first.common.evaluate_new_data(new).design_matrix, dtype=float)
 
+    # a call that fails half-way leaves no trace: evaluating a frame that lacks the grouping column raises, and the
+    # configuration, the design and later evaluations are as before
+    from formulae import config
+
+    case = {"kind": "caller_scenario", "other": "failed evaluation", "where": "exception_path"}
+    ctx.count(core.canon(case), True, ["caller_scenario"], stratum="caller_scenario")
+    unseen = frames.build(FRAMES[2])
+    dmx = design_matrices("y ~ x + f + (x | g)", frame)
+    config["EVAL_UNSEEN_CATEGORIES"] = "error"
+    before = np.array(dmx.group.design_matrix, copy=True)
+    for part, bad in (("group", new.drop(columns=["g"])), ("common", new.drop(columns=["f"])), ("group", new.drop(columns=["x"]))):
+        try:
+            with core.Guard():
+                getattr(dmx, part).evaluate_new_data(bad)
+        except Exception:  # pylint: disable=broad-except
+            pass
+        if config["EVAL_UNSEEN_CATEGORIES"] != "error":
+            ctx.fail("config", case, f"a failed {part}.evaluate_new_data (frame without a column) left the configuration at "
+                     f"{config['EVAL_UNSEEN_CATEGORIES']!r}", "after_exception")
+            config["EVAL_UNSEEN_CATEGORIES"] = "error"
+        try:
+            with core.Guard():
+                dmx.common.evaluate_new_data(unseen)
+            ctx.fail("other_build", case, f"after a failed {part}.evaluate_new_data, unseen levels are accepted in 'error' mode", "after_exception")
+        except Exception:  # pylint: disable=broad-except
+            pass
+    if not np.array_equal(before, np.asarray(dmx.group.design_matrix)):
+        ctx.fail("training_matrix", case, "a failed evaluate_new_data changed the training group matrix", "after_exception")
+
+    # a caller at module level (its locals are its globals): nothing is written into them
+    case = {"kind": "caller_scenario", "other": "y ~ scale(x) + np.log(p2)", "where": "module_level"}
+    ctx.count(core.canon(case), True, ["caller_scenario"], stratum="caller_scenario")
+    for formula in ("y ~ scale(x) + f", "y ~ I(x * 2) + (1 | g)", "y ~ bs(x, df=4)"):
+        g_ = {"design_matrices": design_matrices, "frame": frame, "formula": formula}
+        keys = set(g_)
+        try:
+            with core.Guard():
+                exec("dm = design_matrices(formula, frame)\nm2 = dm.common.evaluate_new_data(frame)", g_)  # pylint: disable=exec-used
+        except Exception as e:  # pylint: disable=broad-except
+            ctx.fail("other_build", case, f"{formula!r} at module level raised {type(e).__name__}: {e}", core.exc_key(e))
+            continue
+        extra_keys = set(g_) - keys - {"dm", "m2", "__builtins__"}
+        if extra_keys:
+            ctx.fail("caller_namespace", case, f"{formula!r} built at module level left new names in the caller's globals: {sorted(extra_keys)}", "module_level")
+
     base = scenario(None, None)
     for other in ("y ~ x", "y ~ 0 + I(x * mult) + f", "y ~ scale(z) + (1 | g)"):
         for where in ("same_function", "nested_function"):
